@@ -73,7 +73,7 @@ def load_units():
     units = {}
     for f in sorted(glob.glob(os.path.join(VERIF, 'specs', '*.py'))):
         name = os.path.basename(f)[:-3]
-        if name.startswith('_'):
+        if name.startswith('_') or name.endswith('_mark'):
             continue
         spec = importlib.util.spec_from_file_location('verif_spec_' + name, f)
         mod = importlib.util.module_from_spec(spec)
